@@ -18,7 +18,7 @@ import (
 var (
 	fmtSimple  = []string{"A", "S", "D", "B", "O", "X", "R", "C", "P", "F", "E", "G", "$", "T", "%", "&", "|", "~", "*", "?", "W", "I", "_", "\n"}
 	fmtMods    = []string{"", ":", "@", ":@"}
-	fmtParams  = []string{"", "5", "0", "-1", "v", "#", "'x", "5,2", ",,,'*", "1,2,3,4,5,6,7,8", "100", "v,v", ",", "3,'0,',"}
+	fmtParams  = []string{"", "5", "0", "-1", "v", "#", "'x", "5,2", "5,0", ",,,'*", "1,2,3,4,5,6,7,8", "100", "v,v", ",", "3,'0,',"}
 	fmtHuge    = []string{big62, "-" + big62, big70, "v"} // v is paired with huge/odd pool arguments
 	fmtHugeArg = []string{"big62", "minfix", "big70", "str", "list3", "double"}
 	// block and otherwise structured control strings, balanced or not
@@ -227,6 +227,23 @@ func fmtRisk(ctl string, args []string) string {
 			hugeArg = true
 		}
 	}
+	zeroArg := false
+	for _, a := range args {
+		if a == "zero" {
+			zeroArg = true
+		}
+	}
+	for _, d := range ds {
+		// ~mincol,0A and ~mincol,0S: a column increment of 0 never reaches mincol
+		if d.ch == 'A' || d.ch == 'S' {
+			if f := strings.Split(d.params, ","); 2 <= len(f) {
+				inc := strings.TrimLeft(f[1], "+-0")
+				if f[1] != "" && (inc == "" || ((f[1] == "v" || f[1] == "V") && zeroArg) || f[1] == "#") {
+					return "fmt-colinc-zero"
+				}
+			}
+		}
+	}
 	for _, d := range ds {
 		if strings.IndexByte(fmtHugeDirs, d.ch) < 0 || d.ch == 0 {
 			continue
@@ -286,7 +303,7 @@ func fmtRisk(ctl string, args []string) string {
 
 // fmtHugeDirs: directives that try to produce as many characters as a
 // parameter says (count, mincol, column, width).
-const fmtHugeDirs = "$%&|~ABDOSTXEFG<"
+const fmtHugeDirs = "$%&|~ABDOSTXEFG<*"
 
 func fmtCall(scope *slip.Scope, ctl string, args []string) (slip.Object, *sl.Err, string) {
 	form := slip.List{slip.Symbol("common-lisp:format"), nil, slip.String(ctl)}
@@ -485,19 +502,20 @@ func fmtFaultSig(c *Case, oc outcome) string {
 	if k == "" {
 		k = oc.fault
 	}
-	// the signature keeps the directives that take an argument (the ones
-	// that can meet an unexpected object); brackets, jumps and padding that
-	// survived the shrinking only as carriers are dropped
-	var keep []string
-	for _, d := range strings.Fields(fmtDirs(ctl)) {
-		if strings.ContainsAny(d[len(d)-1:], "ASDBOXRCPFEGW$?/") || strings.HasSuffix(d, ">") && strings.HasPrefix(d, "<") {
-			keep = append(keep, d)
+	// The culprit is the last argument-taking directive of the shrunk string:
+	// nothing after the faulting directive is ever executed, so everything
+	// removable behind it is gone.
+	ds := parseDirs(ctl)
+	culprit := ""
+	for k := len(ds) - 1; 0 <= k && culprit == ""; k-- {
+		if ds[k].ch != 0 && strings.IndexByte("ASDBOXRCPFEGWT$?/", ds[k].ch) >= 0 {
+			culprit = ds[k].name()
 		}
 	}
-	if len(keep) == 0 {
-		keep = strings.Fields(fmtDirs(ctl))
+	if culprit == "" {
+		culprit = fmtDirs(ctl)
 	}
-	return sigName(fmt.Sprintf("fault=%s fmt dirs=%s", k, strings.Join(keep, " ")))
+	return sigName(fmt.Sprintf("fault=%s fmt dir=%s", k, culprit))
 }
 
 var idxLen = regexp.MustCompile(`index out of range \[(-?\d+)\](?: with length (\d+))?`)
